@@ -24,4 +24,24 @@ PROPS = {
             "trichotomy assumes int/uint->float conversions never produce NaN (FloatOps.ConvNoNaN)",
         ],
     },
+    "C11": {
+        "lean": ["UgoVerif.Props.C11"],
+        "gen": ["Opcodes.lean"],
+        "streams": ["v1"],
+        "required_theorems": ["decode_encode", "newOff_strict_mono", "conv_decodes", "conv_no_panic",
+                              "conv_total", "widen_nonneg", "unchanged_same_layout", "reloc_sim", "C11_partial"],
+        "trusted": [
+            "hand model Model/V1.lean of encoder/v1.go convCompFuncV1ToV2 (three loops, byte level, panic sites explicit) and Model/Bytecode.lean of ReadOperands/MakeInstruction layout, tied by stream `v1` (converter output per function of generated programs and on malformed byte strings)",
+            "independent down-converter v2->v1 of the harness (harness/cmd/corr/v1.go) with the frozen version-1 width table",
+        ],
+        "assumptions": [
+            "behavioural conclusion (C11_full) is proved for every abstract machine that is Equivariant under the converter's offset map (Spec/Reloc.lean); Equivariant for the real VM awaits Model/VM",
+            "C11_partial assumes the converted source map answers SourcePos queries like the original (true when every source-map key is an instruction offset) and that the converted stream ends at newOff(len)",
+            "convBytecodeV1ToV2 = convFn on Main and on every *CompiledFunction constant; decodeBytecodeV2 itself belongs to C04/C18",
+            "MakeInstruction arguments are modelled as naturals (ReadOperands yields non-negative ints on 64-bit platforms)",
+        ],
+        "partial": [
+            {"theorem": "C11_partial", "full": "C11_full", "missing": "Machine.Equivariant for the real VM model; source-map lookup agreement hpos; end-offset agreement hend"},
+        ],
+    },
 }
